@@ -36,6 +36,11 @@ class _Return(Exception):
         self.value = value
 
 
+class _Throw(Exception):
+    def __init__(self, value=None):
+        self.value = value
+
+
 class Closure:
     def __init__(self, row, env, unit, cls=None):
         self.row = row
@@ -145,6 +150,12 @@ C_UNOPS = dict(PY_UNOPS)
 C_UNOPS.update({"!": operator.not_})
 
 
+CONTROL_OPS = {"if_stmt", "while_stmt", "dowhile_stmt", "for_stmt", "forin_stmt", "for_value_stmt", "switch_stmt", "case_stmt",
+               "default_stmt", "break_stmt", "continue_stmt", "return_stmt", "return", "goto_stmt", "label_stmt", "try_stmt",
+               "catch_clause", "catch_stmt", "throw_stmt", "yield_stmt", "block", "with_stmt", "switch_type_stmt", "method_decl",
+               "class_decl", "call_stmt", "object_call_stmt"}
+
+
 class VM:
     def __init__(self, rows, lang="python", step_budget=20000, decide=None, externs=None, int_bool=False):
         self.rows = rows
@@ -163,6 +174,8 @@ class VM:
         self.unops = PY_UNOPS if lang == "python" else C_UNOPS
         self.cur_stmt = None
         self.record_values = False
+        self.uncaught = set()
+        self.implicit_raise_mid = 0      # oracle mode: exceptions decided at a non-last statement of a try body
         self._index()
 
     # ------------------------------------------------------------------ structure
@@ -377,7 +390,7 @@ class VM:
 
     def truth(self, frame, stmt, cond_text):
         if self.decide is not None:
-            d = self.decide(stmt)
+            d = self.decide(stmt, "cond")
             if d is not None:
                 return d
         v = self.read(frame, cond_text, stmt)
@@ -387,10 +400,16 @@ class VM:
         op = s.get("operation")
         h = getattr(self, "op_" + op, None)
         if h is None:
-            raise VMUnsupported(f"operation {op}")
-        if op not in ("variable_decl", "method_decl", "class_decl", "global_stmt", "nonlocal_stmt") or not toplevel:
-            if op != "variable_decl" or True:
+            if self.decide is not None and op not in CONTROL_OPS and not op.endswith("_decl"):
+                # oracle mode only cares about control flow: an unknown data operation defines its target opaquely
                 self.tick(frame, s)
+                if s.get("target") is not None:
+                    self.write_name(frame, s.get("target"), None, s)
+                return
+            raise VMUnsupported(f"operation {op}")
+        if (op not in ("variable_decl", "method_decl", "class_decl", "global_stmt", "nonlocal_stmt") or not toplevel) \
+                and op not in ("dowhile_stmt", "for_stmt"):   # these headers are first reached after their body / init block
+            self.tick(frame, s)
         h(frame, s)
 
     # declarations
@@ -477,6 +496,8 @@ class VM:
         except RecursionError:
             raise VMBudget()
         except Exception as e:
+            if self.decide is not None:
+                return None           # oracle mode: values are opaque
             raise VMRuntimeError(f"{type(e).__name__}: {e}")
         if isinstance(r, int) and not isinstance(r, bool) and abs(r) > 10 ** 30:
             raise VMBudget()
@@ -491,6 +512,44 @@ class VM:
 
     def op_break_stmt(self, frame, s):
         raise _Break()
+
+    def op_throw_stmt(self, frame, s):
+        raise _Throw(s.get("name"))
+
+    def op_try_stmt(self, frame, s):
+        """try {body} catch {catch_body: catch_clause*} else {else_body} finally {final_body}.
+        Oracle mode: after each top-level statement of the body one decision bit says whether it raised."""
+        body = self.block(s.get("body"))
+        final = self.block(s.get("final_body")) if s.get("final_body") is not None else []
+        clauses = [c for c in (self.block(s.get("catch_body")) if s.get("catch_body") is not None else [])
+                   if c.get("operation") in ("catch_clause", "catch_stmt")]
+        pending = None
+        try:
+            raised = False
+            try:
+                for bi, st in enumerate(body):
+                    self.exec_stmt(frame, st)
+                    if self.decide is not None and st.get("operation") not in ("throw_stmt",) and self.decide(s, "raise"):
+                        if bi != len(body) - 1:
+                            self.implicit_raise_mid += 1
+                        raise _Throw()
+            except _Throw as t:
+                raised = True
+                if clauses:
+                    c = clauses[0]
+                    self.tick(frame, c)
+                    self.exec_block(frame, self.block(c.get("body")))
+                else:
+                    pending = t
+            if not raised and s.get("else_body") is not None:
+                self.exec_block(frame, self.block(s.get("else_body")))
+        except (_Break, _Continue, _Return, _Throw) as j:
+            pending = j
+        self.exec_block(frame, final)
+        if pending is not None:
+            if isinstance(pending, _Throw):
+                self.implicit_raise_mid += 1      # an exception that propagates out of this try statement
+            raise pending
 
     def op_continue_stmt(self, frame, s):
         raise _Continue()
@@ -540,8 +599,7 @@ class VM:
         while True:
             if s.get("condition_prebody") is not None:
                 self.exec_block(frame, self.block(s.get("condition_prebody")))
-            if not first:
-                self.tick(frame, s)
+            self.tick(frame, s)
             first = False
             cond = s.get("condition")
             if cond is not None or self.decide is not None:
@@ -556,6 +614,33 @@ class VM:
             if s.get("update_body") is not None:
                 self.exec_block(frame, self.block(s.get("update_body")))
 
+    def op_switch_stmt(self, frame, s):
+        entries = [c for c in self.block(s.get("body")) if c.get("operation") in ("case_stmt", "default_stmt")]
+        start = None
+        for i, c in enumerate(entries):
+            if c.get("operation") != "case_stmt":
+                continue
+            if self.decide is not None:
+                hit = self.decide(c, "case")
+            else:
+                hit = self.read(frame, s.get("condition"), s) == self.read(frame, c.get("condition"), c)
+            if hit:
+                start = i
+                break
+        if start is None:
+            for i, c in enumerate(entries):
+                if c.get("operation") == "default_stmt":
+                    start = i
+        if start is None:
+            return
+        self.tick(frame, entries[start])
+        try:
+            for c in entries[start:]:
+                if c.get("body") is not None:
+                    self.exec_block(frame, self.block(c.get("body")))
+        except _Break:
+            pass
+
     def iterate(self, v):
         if isinstance(v, dict):
             return list(v.keys())
@@ -564,7 +649,7 @@ class VM:
         raise VMRuntimeError(f"TypeError: {type(v).__name__} is not iterable")
 
     def op_forin_stmt(self, frame, s):
-        recv = self.read(frame, s.get("receiver"), s)
+        recv = self.read(frame, s.get("receiver", s.get("target")), s)
         body = self.block(s.get("body"))
         if self.decide is not None:
             # oracle mode: the number of iterations is decided, elements are opaque
@@ -573,7 +658,7 @@ class VM:
                 if not first:
                     self.tick(frame, s)
                 first = False
-                d = self.decide(s)
+                d = self.decide(s, "iter")
                 if not d:
                     break
                 self.write_name(frame, s.get("name"), None, s)
@@ -639,6 +724,8 @@ class VM:
         idx = self.read(frame, s.get("index"), s)
         if isinstance(arr, (list, dict, str, tuple)):
             v = self.apply(operator.getitem, arr, idx)
+        elif self.decide is not None:
+            v = None
         else:
             raise VMRuntimeError(f"TypeError: {type(arr).__name__} is not subscriptable")
         self.write_name(frame, s.get("target"), v, s)
@@ -838,12 +925,19 @@ class VM:
             self.defs.append((p["stmt_id"], name, v if self.record_values else None, f.activation))
         if pos or named:
             raise VMRuntimeError("TypeError: too many arguments")
+        for p in params:
+            self.trace.append((f.activation, p["stmt_id"]))
         try:
             self.exec_block(f, self.block(fn.row.get("body")))
         except _Return as r:
             return r.value
         except (_Break, _Continue):
             raise VMUnsupported("break/continue outside a loop")
+        except _Throw:
+            if self.decide is not None:
+                self.uncaught.add(f.activation)
+                return None           # oracle mode: an uncaught exception leaves the activation
+            raise VMRuntimeError("uncaught exception")
         return None
 
 
